@@ -7,6 +7,7 @@ import (
 	"fmt"
 	"hash/fnv"
 	"io"
+	"math"
 	"runtime"
 	"strings"
 	"sync"
@@ -75,9 +76,9 @@ type Call struct {
 	Run     string `json:"run"`
 	Step    string `json:"step"`
 	Input   val.V  `json:"input"`
-	Group   int    `json:"group"`    // calls of one group start together; groups run one after the other
-	DelayMs int    `json:"delay_ms"` // stagger inside the group
-	Poke    bool   `json:"poke"`     // send a signal addressed to an unknown run while this call is pending
+	Group   int    `json:"group"`              // calls of one group start together; groups run one after the other
+	DelayMs int    `json:"delay_ms"`           // stagger inside the group
+	Poke    bool   `json:"poke"`               // send a signal addressed to an unknown run while this call is pending
 	PokeOwn bool   `json:"poke_own,omitempty"` // ... addressed to this very run instead, with a signal ID the step does not declare
 }
 
@@ -387,7 +388,14 @@ func run(c Case) (string, map[string]int) {
 		return "Close did not return on a healthy connection\n" + sig + firstLines(dump, 140) + "\nsession: " + caseJSON(c), stats
 	}
 	_ = c2s.Close()
-	go func() { buf := make([]byte, 4096); for { if _, err := s2c.Read(buf); err != nil { return } } }()
+	go func() {
+		buf := make([]byte, 4096)
+		for {
+			if _, err := s2c.Read(buf); err != nil {
+				return
+			}
+		}
+	}()
 	select {
 	case <-srvDone:
 	case <-time.After(20 * time.Second):
@@ -463,8 +471,19 @@ func withDeep(t *rapid.T, v val.V, label string) val.V {
 	if (v.T != "map[string]any" && v.T != "map[any]any") || rapid.IntRange(0, 5).Draw(t, label+"Deep") != 0 {
 		return v
 	}
-	depth := rapid.SampledFrom([]int{10, 28, 31, 40, 120}).Draw(t, label+"DeepLevels")
+	depth := rapid.SampledFrom([]int{1, 10, 28, 31, 40, 120}).Draw(t, label+"DeepLevels")
 	d := val.Int("int64", 7)
+	switch rapid.IntRange(0, 4).Draw(t, label+"DeepLeaf") {
+	case 0:
+		d = val.Float("float64", math.NaN())
+		ev.Class("payload_leaf_non_finite", 1)
+	case 1:
+		d = val.Float("float64", math.Inf(1))
+		ev.Class("payload_leaf_non_finite", 1)
+	case 2:
+		d = val.Float("float64", math.Inf(-1))
+		ev.Class("payload_leaf_non_finite", 1)
+	}
 	for i := 0; i < depth; i++ {
 		if i%2 == 0 {
 			d = val.V{T: "[]any", L: []val.V{d}}
